@@ -9,6 +9,7 @@ struct RunnerOpts {
     bool record = true;          // keep decision logs in the outcome
     long baseline_steps = 0;     // E_serial of this configuration (0: unknown -> static budget)
     bool monitors = true;
+    bool nested = false;         // a comparison run started from inside run_case
     // C18 split probes: called once, before operation number between_after + 1 of the first repetition (other library calls are made there)
     std::function<void()> between;
     int between_after = -1;
